@@ -97,7 +97,7 @@ int main(int argc, char **argv)
     // long sequences over a 2-letter sub-alphabet (smallest message, smallest non-empty nested bundle), up to the API's 8 elements
     {
         std::vector<std::vector<int>> longs; bgen::sequences(2, T ? 6 : 4, 8, longs);
-        int sub[2] = {0, 6};
+        int sub[2] = {0, (int)bgen::messages().size() + 1};
         for(auto &s : longs) { std::vector<int> t; for(int k : s) t.push_back(sub[k]); seqs.push_back(t); }
     }
     vp::bound("element_alphabet", (long long)alph.size());
